@@ -240,6 +240,11 @@ def obligations(tier):
         for which in ("linear_in_weight", "permutation_invariant", "mean_of_halves"):
             for wkind in (("vec",) if tier == "quick" else ("scalar", "vec")):
                 obs.append(corollary(kind, 2 if tier == "quick" else 4, 2, wkind, which))
+    # separable networks: the dynamic term over a grid with 1, 2 or 3 axes and 1 or 2 residual components (C11 contracts)
+    from contracts import c11
+    for o in (c11.dynapply_ob(1, 2), c11.dynapply_axes_ob(1, 2, 2), c11.dynapply_axes_ob(3, 1, 2), c11.dynapply_axes_ob(2, 2, 2)):
+        o.name = o.name.replace("C11/", "C03/").replace("equals_pointwise_over_grid", "ensures.mean_over_grid")
+        obs.append(o)
     # frame: the terms are functions of (params, batch) only if evaluating leaves both unchanged — every function
     # in the call cone of the three evaluate methods that lives in jinns.loss / jinns.parameters is checked by the
     # ownership analysis of vf.frame (the C20 obligation, reported here for the functions C03 depends on)
